@@ -274,7 +274,8 @@ def moderate_gamma():
 
 
 def tolerance():
-    return st.one_of(st.just(0.0), st.floats(-9.0, -1.0).map(lambda e: 10.0**e), st.floats(0.0, 0.5))
+    # tolerances above 1 are legitimate: "cosine within tol of +1" is then cos > 1 - tol < 0
+    return st.one_of(st.just(0.0), st.floats(-9.0, -1.0).map(lambda e: 10.0**e), st.floats(0.0, 0.5), st.floats(0.5, 2.5))
 
 
 @st.composite
